@@ -39,7 +39,7 @@ class Rule:
         self.instances.append((key, where, detail))
 
     def violation(self, key, where, msg):
-        k = "%s:%s" % (self.name.split(".", 1)[-1], key)
+        k = re.sub(r"\s+", "_", "%s:%s" % (self.name.split(".", 1)[-1], key))
         if any(v[0] == k for v in self.violations):
             return
         self.violations.append((k, where, msg))
